@@ -744,10 +744,16 @@ impl<S: Read + Write> H2Conn<S> {
             bytes.extend(Frame::window_update(0, inc as u32).encode());
         }
         if stream != 0 {
+            let heard = self.streams.contains_key(&stream);
             let open = self.streams.get(&stream).map(|s| !s.end_stream && s.reset.is_none()).unwrap_or(true);
             let target = (self.mine.initial_window_size as i64).clamp(65535, 1 << 20);
             let cur = *self.stream_credit.get(&stream).unwrap_or(&(self.mine.initial_window_size as i64));
-            if open && cur <= target / 2 {
+            // a stream that has not sent anything back yet is topped up only while its window could not take one
+            // default-sized frame: granting more to every freshly opened stream means one WINDOW_UPDATE per
+            // request, which on a busy machine arrives after short responses have closed their streams - sozu
+            // counts WINDOW_UPDATE on closed streams toward its documented glitch budget (ENHANCE_YOUR_CALM)
+            let needed = if heard { cur <= target / 2 } else { cur < 16384 };
+            if open && needed {
                 let inc = target - cur;
                 *self.stream_credit.entry(stream).or_insert(self.mine.initial_window_size as i64) += inc;
                 bytes.extend(Frame::window_update(stream, inc as u32).encode());
